@@ -65,10 +65,13 @@ def _case(draw, tier):
                     keep.append(d)
             t["deps"] = keep
     exps = [i for i, t in enumerate(g["tasks"]) if t["kind"] == "exp"]
+    nonleaf = [i for i, t in enumerate(g["tasks"]) if t["deps"]]
+    use_task = draw(st.sampled_from([False, True, True]))
+    task_arg = draw(st.sampled_from((nonleaf * 3 if nonleaf else []) + list(range(len(g["tasks"]))))) if use_task else None
     rows = []
     ts_pool = [5, 7, 100, 101, 1700000000, 1700000001, 42]
     for i in exps:
-        k = draw(st.sampled_from([0, 1, 1, 2, 3, 4]))
+        k = draw(st.sampled_from([1, 1, 1, 2, 3] if use_task else [0, 1, 1, 2, 3, 4]))
         tss = draw(st.lists(st.sampled_from(ts_pool), min_size=k, max_size=k, unique=True))
         for ts in tss:
             ne = draw(st.sampled_from([0, 1, 2, 3, 5, 10]))
@@ -80,7 +83,7 @@ def _case(draw, tier):
         rows.append(["//gone/pkg:old%d" % len(rows), draw(st.sampled_from(ts_pool)), draw(st.sampled_from(HASHES)), False, [0]])
     g["rows"] = rows
     g["latest"] = draw(st.booleans())
-    g["task_arg"] = draw(st.sampled_from([None, None] + list(range(len(g["tasks"])))))
+    g["task_arg"] = task_arg
     g["out"] = draw(st.sampled_from([None, None, "dir", "file"]))
     g["restore_into"] = draw(st.sampled_from(["fresh", "fresh", "cleaned"]))
     return g
@@ -91,7 +94,7 @@ def strategy(tier):
 
 
 def examples(tier):
-    return 960 if tier == "quick" else 10000
+    return 2400 if tier == "quick" else 20000
 
 
 def selection(case, ids):
